@@ -112,13 +112,25 @@ func runC11(c *vk.Ctx) {
 		crashOut := sdkmath.ZeroInt()
 		sig := func(op string) map[string]any { return map[string]any{"op": op} }
 
+		// slashed: a validator has been slashed in this history (every fourth history does it once). The slash itself
+		// burns staked tokens (not superfluid's doing) and takes the validator's tokens-per-share rate away from 1,
+		// after which undelegations and the downward refresh can be refused with "invalid shares amount" (an
+		// observation outside the statement). From then on only what the statement says about the reported supply is
+		// checked: no superfluid message or refresh may move it.
+		slashed := false
 		check := func(op string, afterRefresh bool) bool {
 			ctx := ch.Ctx
 			c.Eval(1)
 			// (3) supply neutrality
 			if s := ch.App.BankKeeper.GetSupplyWithOffset(ctx, "uosmo").Amount; !s.Equal(supply0) {
-				c.Violate("C11.supply_not_neutral", sig(op), "after %s the OSMO supply reported to users moved from %s to %s", op, supply0, s)
+				sg := sig(op)
+				sg["after_slash"] = slashed
+				c.Violate("C11.supply_not_neutral", sg, "after %s the OSMO supply reported to users moved from %s to %s", op, supply0, s)
 				return false
+			}
+			if slashed {
+				c.Class("%s|after-slash|supply-neutral", op)
+				return true
 			}
 			minRisk := sk.GetParams(ctx).MinimumRiskFactor
 			// (1) stake per intermediary account
@@ -268,6 +280,29 @@ func runC11(c *vk.Ctx) {
 				return cand[r.Intn(len(cand))]
 			}
 			op := ""
+			if i%4 == 3 && !slashed && step > nSteps/4 && r.Intn(8) == 0 {
+				nDel := 0
+				for _, l := range locks {
+					if l.state == "delegated" && l.val == vi {
+						nDel++
+					}
+				}
+				if nDel > 0 {
+					// the way x/slashing does it: a fraction of everything staked with the validator is burned
+					consAddr := ch.Vals[vi].ConsAdr
+					frac := osmomath.NewDecWithPrec(1+r.I64n(30), 2)
+					c.Logf("Slash(validator %d, %s)", vi, frac)
+					cctx, write := ch.Ctx.CacheContext()
+					if _, err := ch.App.StakingKeeper.Slash(cctx, consAddr, ch.Ctx.BlockHeight()-1, 1000, frac); err == nil {
+						write()
+						slashed = true
+						ch.NextBlock(5 * time.Second)
+						supply0 = ch.App.BankKeeper.GetSupplyWithOffset(ch.Ctx, "uosmo").Amount
+						c.Class("validator-slash|delegated-locks%d", bucket(nDel))
+						continue
+					}
+				}
+			}
 			if i%3 == 2 && r.Intn(20) == 0 {
 				// validator faults (every third history): a validator is jailed / unjailed through the staking keeper,
 				// the way the slashing module does. The statement does not speak about jailing; what is checked is
